@@ -392,7 +392,7 @@ def x_witness(pid, fails, repo):
     if not any(getattr(f, 'unit', '') == 'X' for f in fails):
         return l3_witness(pid, fails, repo)
     # the replayed observable is the member list (names, order, wrappers) of the struct: it is a witness for the property-level clauses only
-    PROPERTY_CLAUSES = ('element-is-alias-or-carries-its-anonymous-type', 'component-kind-follows-the-tag', 'one-field-per-member-in-order', 'fields-are-the-members', 'base-members-then-own', 'derived-type-is-base-then-own',
+    PROPERTY_CLAUSES = ('fields-so-far', 'content-child-tracked', 'no-complex-type-child-so-far', 'element-is-alias-or-carries-its-anonymous-type', 'component-kind-follows-the-tag', 'one-field-per-member-in-order', 'fields-are-the-members', 'base-members-then-own', 'derived-type-is-base-then-own',
                         'content-then-attributes', 'flags-follow-the-declaration', 'anchor-lost', 'read-component-denotes-the-reference', 'base-lookup-finds-a-type')
     if not any(f.obligation.rsplit('#', 1)[-1] in PROPERTY_CLAUSES for f in fails if getattr(f, 'unit', '') == 'X'):
         return {'found': False, 'note': 'helper clause: no observable to replay'}
